@@ -34,7 +34,16 @@ class Gen:
     def __init__(self, rng: random.Random, prof: Profile):
         self.r, self.p = rng, prof
         n = rng.randint(*prof.n_passages)
-        self.names = ["Start"] + [f"P{i}" for i in range(1, n)]
+        self.names = ["Start"]
+        for i in range(1, n):
+            # some passage names contain another passage's name (P1 / P1b / P1bx): names are compared as whole
+            # words by the engine (visited list, one-time identities, hooks), never as substrings
+            if i >= 2 and rng.random() < 0.3:
+                nm = rng.choice(self.names[1:]) + rng.choice("bx")
+                if nm not in self.names:
+                    self.names.append(nm)
+                    continue
+            self.names.append(f"P{i}")
         self.sig = {}          # passage -> list of (param, default or None)
         for nm in self.names[1:]:
             if rng.random() < prof.params:
